@@ -142,7 +142,14 @@ def gen_spec(rng, pairing=None, small=False, allow_tiering=False,
     tiering threshold unless allow_tiering."""
     nm = rng.randint(1, 3 if small else 6)
     speeds = [rng.choice([4, 5, 8, 10, 10, 20]) for _ in range(nm)]
-    machines = [{"id": "m%d" % i, "flops": speeds[i],
+    # machine ids: usually m0..mk; sometimes ids that are prefixes / substrings of
+    # one another (m1, m10, m11, ... as in the large shipped configurations)
+    if rng.random() < 0.3:
+        names = rng.sample(["m1", "m10", "m11", "m100", "m101", "cat0_m1", "cat0_m10", "1", "11"], nm)
+        rng.shuffle(names)
+    else:
+        names = ["m%d" % i for i in range(nm)]
+    machines = [{"id": names[i], "flops": speeds[i],
                  "bw": rng.choice([1, 2, 4, 8])} for i in range(nm)]
     nobs = rng.randint(1, 2 if small else 4)
     total_arrays = rng.choice([2, 4, 6])
